@@ -47,7 +47,7 @@ REAL = {"connect": "connect", "integrity": "integrity", "cs1_select": "select-ma
         "md_begin": "begin", "md_insert1": "insert-metadata", "md_insert2": "insert-metadata", "md_commit": "commit",
         "pr_begin": "begin", "pr_delete": "prune-delete", "pr_update": "prune-update", "pr_commit": "commit",
         "lk_begin": "begin", "lk_select": "lookup", "lk_commit": "commit", "th_begin": "begin", "th_update": "touch",
-        "th_commit": "commit", "parse_text": "parse", "cs1_begin": "begin", "cs2_begin": "begin", "st_begin": "begin", "st_insert": "store", "st_commit": "commit", "done_close": "close"}
+        "th_commit": "commit", "rm_close": "close", "rm_remove": "os.remove", "parse_text": "parse", "cs1_begin": "begin", "cs2_begin": "begin", "st_begin": "begin", "st_insert": "store", "st_commit": "commit", "done_close": "close"}
 
 WRONG_MODELS = "CREATE TABLE models (txt_hash TEXT, data BLOB)"
 WRONG_META = "CREATE TABLE metadata (foo TEXT)"
@@ -71,7 +71,8 @@ def configs(thorough):
 def env_of(c, deferred):
     return {"C02_N": c["n"], "C02_SAMETEXT": "TRUE" if c["same"] else "FALSE", "C02_MODELS": c["models"],
             "C02_META": c["meta"], "C02_ROWS": c["rows"], "C02_TOUCH": "TRUE", "C02_SHARED": "TRUE" if c["shared"] else "FALSE",
-            "C02_DEFERRED": "TRUE" if deferred else "FALSE"}
+            "C02_DEFERRED": "TRUE" if deferred else "FALSE",
+            "C02_LOCKEDCORRUPT": "TRUE" if c.get("lockedcorrupt") else "FALSE", "C02_TIMEOUT": "TRUE" if c.get("timeout") else "FALSE"}
 
 
 _fresh = {}
@@ -128,6 +129,9 @@ def run_schedule(c, steps, free_tail_seed=0):
         del P.parse.initialized_dbs
     d, db, paths = prepare_folder(c, P)
     ctl = gate.Controller()
+    timedout = {st["p"] for st in steps if st["outcome"] == "timeout"}
+    for p in timedout:
+        ctl.timeouts[p] = 0.3      # only the process the model lets run into its busy timeout
     P.sqlite3 = gate.SqliteProxy(ctl)
     P.os = gate.OsProxy(ctl, real_os)
     real_parse = P._parse
@@ -168,6 +172,10 @@ def run_schedule(c, steps, free_tail_seed=0):
             label, real = ctl.step(p, expect_block=(outcome == "wait-pending"))
             if label is None:
                 continue
+            if outcome == "timeout":
+                if real == "waiting":
+                    drift.append("model-timeout-real-still-waiting")
+                continue
             want = REAL.get(st["at"], st["at"])
             if label == "begin-immediate":
                 label = "begin"
@@ -185,6 +193,8 @@ def run_schedule(c, steps, free_tail_seed=0):
         for p in sorted(ctl.done):
             kind, val = ctl.done[p]
             lastop = (ctl.oplog.get(p) or [["?", "?"]])[-1]
+            if kind == "exc" and p in timedout and "locked" in str(val):
+                continue        # the schedule let this call run into its busy timeout: not a property violation
             if kind == "exc":
                 r = exc_record(val)
                 r.update(observable="exception", tags=["cfg:" + c["name"], "n:%d" % c["n"], "at:" + str(lastop[0])])
@@ -193,6 +203,10 @@ def run_schedule(c, steps, free_tail_seed=0):
                 recs.append({"observable": "tree-differs-from-uncached-parse", "tags": ["cfg:" + c["name"]],
                              "exception_type": None, "detail": "process %d got %s" % (p, "None" if val is None else "a different tree")})
         # the database another call is using must not have been deleted or corrupted
+        for who, others in ctl.removed_in_use:
+            recs.append({"observable": "database-removed-while-in-use", "tags": ["cfg:" + c["name"], "n:%d" % c["n"]],
+                         "exception_type": None,
+                         "detail": "process %d removed the cache database while processes %s had it open" % (who, others)})
         P.sqlite3 = sqlite3
         P.os = real_os
         P._parse = real_parse
@@ -363,7 +377,32 @@ def run(ctx):
                 steps = [s[1] for s in gg.steps(p)]
                 jobs.append((c, steps))
                 jobinfo.append((kind, key))
-    if not any(v["asbuilt_violates"] or v["asbuilt_deadlock"] for v in gstats.values()):
+    # busy-timeout scenarios (need 3 processes: a PENDING writer, the reader it waits for, and the victim)
+    ct = {"name": "existing", "n": 3, "models": "ok", "meta": "ok", "rows": 0, "same": True, "shared": False, "timeout": True}
+    r = tlc.run("ParseCacheConcMC", "ParseCacheConcMC.cfg", workers=1, env=env_of(ct, False), timeout=1800)
+    ctx.add_tlc(r, "intended with one busy timeout allowed, existing n=3")
+    if r.violated or r.deadlock:
+        raise MachineryError("intended timeout config: %s deadlock=%s" % (r.violated, r.deadlock))
+    trt = [e for e in r.tr() if e["act"].get("act") == "step" and e["src"] != e["dst"]]
+    gt = graph.Graph(trt, init=[trt[0]["src"]])
+    d_int = shortest_paths_to(gt, lambda a: a.get("outcome") == "timeout", limit=4)
+    ca = dict(ct, lockedcorrupt=True)
+    ra = tlc.run("ParseCacheConcMC", "ParseCacheConcMC.cfg", workers=1, env=env_of(ca, False), timeout=1800, extra=["-continue"])
+    ctx.add_tlc(ra, "as-built LockedCountsAsCorrupt with one busy timeout allowed, existing n=3 (expected to violate NoRemoveWhileInUse)")
+    if "NoRemoveWhileInUse" not in ra.violated:
+        raise MachineryError("as-built LockedCountsAsCorrupt config does not violate NoRemoveWhileInUse: switch is vacuous")
+    tra = [e for e in ra.tr() if e["act"].get("act") == "step" and e["src"] != e["dst"]]
+    gta = graph.Graph(tra, init=[tra[0]["src"]])
+    d_asb = shortest_paths_to(gta, lambda a: a.get("what") == "os.remove", limit=4)
+    if not d_int or not d_asb:
+        raise MachineryError("no directed timeout schedules")
+    gstats["timeout n=3"] = {"states": gt.n_states(), "transitions": gt.n_edges(), "directed_timeout_schedules": len(d_int),
+                             "directed_asbuilt_remove_schedules": len(d_asb), "asbuilt_violates": ra.violated}
+    for gg, plist in ((gt, d_int), (gta, d_asb)):
+        for p in plist:
+            jobs.append((ct, [s[1] for s in gg.steps(p)]))
+            jobinfo.append(("timeout", "timeout n=3"))
+    if not any(v["asbuilt_violates"] or v.get("asbuilt_deadlock") for v in gstats.values()):
         raise MachineryError("as-built switch is vacuous: no config produced a counterexample")
     # threads + a process pool: each job installs module-level proxies, so one job per process at a time
     results = par.pmap(_job, jobs, chunksize=1)
